@@ -407,7 +407,6 @@ _warc_read(struct archive_read *a, const void **buf, size_t *bsz, int64_t *off)
 		*bsz = 0U;
 		/* the \r\n\r\n separator is not part of the entry */
 		*off = w->cntoff;
-		w->unconsumed = 0U;
 		return (ARCHIVE_EOF);
 	}
 
@@ -441,11 +440,14 @@ _warc_skip(struct archive_read *a)
 {
 	struct warc_s *w = a->format->data;
 
-	if (__archive_read_consume(a, w->cntlen) < 0 ||
+	/* _warc_read() has consumed what it handed out except its last block */
+	if (__archive_read_consume(a,
+	    w->cntlen - w->cntoff + w->unconsumed) < 0 ||
 	    __archive_read_consume(a, 4U/*\r\n\r\n separator*/) < 0)
 		return (ARCHIVE_FATAL);
 	w->cntlen = 0U;
 	w->cntoff = 0U;
+	w->unconsumed = 0U;
 	return (ARCHIVE_OK);
 }
 
